@@ -66,6 +66,9 @@ type DefaultFanController struct {
 	originalPwmValue int
 	// the last pwm value that was set to the fan, **before** applying the pwmMap to it
 	lastSetPwm *int
+	// the last output of the control loop, on the [0..255] scale of the curve,
+	// **before** mapping it to the [minPwm, maxPwm] range of the fan
+	lastLoopOutput *int
 	// a list of all pre-pwmMap pwm values where setPwm(x) != setPwm(y) for the controlled fan
 	pwmValuesWithDistinctTarget []int
 	// a map of x -> getPwm() where x is setPwm(x) for the controlled fan
@@ -447,8 +450,15 @@ func (f *DefaultFanController) calculateTargetPwm() (int, error) {
 		return -1, err
 	}
 
+	// the control loop works on the [0..255] scale of the curve, so it is fed with its own previous
+	// output and not with the last set pwm, which is already mapped to the range of the fan
+	current := pwmToLoopScale(lastSetPwm, fan.GetMinPwm()+f.minPwmOffset, fan.GetMaxPwm())
+	if f.lastLoopOutput != nil {
+		current = *(f.lastLoopOutput)
+	}
+
 	// the target pwm, approaching the actual target smoothly
-	target = f.controlLoop.Cycle(target, lastSetPwm)
+	target = f.controlLoop.Cycle(target, current)
 
 	// ensure target value is within bounds of possible values
 	if target > fans.MaxPwmValue {
@@ -458,6 +468,8 @@ func (f *DefaultFanController) calculateTargetPwm() (int, error) {
 		ui.Warning("Tried to set out-of-bounds PWM value %d on fan %s", target, fan.GetId())
 		target = fans.MinPwmValue
 	}
+	loopOutput := target
+	f.lastLoopOutput = &loopOutput
 
 	// map the target value to the possible range of this fan
 	maxPwm := fan.GetMaxPwm()
@@ -496,6 +508,16 @@ func (f *DefaultFanController) calculateTargetPwm() (int, error) {
 	}
 
 	return target, nil
+}
+
+// pwmToLoopScale maps a pwm value from the [minPwm, maxPwm] range of a fan
+// back to the [0..255] scale the control loop operates on
+func pwmToLoopScale(pwm int, minPwm int, maxPwm int) int {
+	if maxPwm <= minPwm {
+		return fans.MinPwmValue
+	}
+	scaled := float64(pwm-minPwm) * fans.MaxPwmValue / float64(maxPwm-minPwm)
+	return int(util.Coerce(scaled, fans.MinPwmValue, fans.MaxPwmValue))
 }
 
 // ensureNoThirdPartyIsMessingWithUs checks if the PWM value of the fan does not match the last
